@@ -55,11 +55,13 @@ def decLim : Dec (Option Nat)
   | .atom "-" => some none
   | s => (nat s).map some
 
-/-- Allocation bound in bytes for a decode with limits configured: a constant, plus per input byte
-a constant and what one count field at its limit may reserve (2 buffers x 8 bytes x stride <= 4). -/
+/-- Allocation bound in bytes for a decode with limits configured — *input length plus limits*, not
+their product: a constant, a constant per input byte (objects built from bytes really present,
+amortised growth), and what the count fields still pending when the decode stops may have reserved
+at their limit (at most 8 nested levels x 8 bytes x stride <= 4, rounded up to 320 per unit of limit). -/
 def allocBound (lim : Limits) (len : Nat) : Nat :=
   let l := max (lim.l1.getD 0) (max (lim.l2.getD 0) (lim.l3.getD 0))
-  16384 + len * (512 + 64 * l)
+  16384 + len * 600 + 320 * l
 
 def handle (op : String) (inp go : Sexp) : Option Reply :=
   match op, inp with
